@@ -14,10 +14,10 @@ import (
 // harness that lives outside of this module (which cannot import "internal").
 
 func VerifSetSink(fn func(ev string, gid int64, kv []interface{})) { verif.SetSink(fn) }
-func VerifSetGate(fn func(name string, key string) string)          { verif.SetGate(fn) }
-func VerifSetProc(name string, fn func(data interface{}))           { verif.SetProc(name, fn) }
-func VerifGoID() int64                                               { return verif.GoID() }
-func VerifID(ptr interface{}) string                                 { return verif.ID(ptr) }
+func VerifSetGate(fn func(name string, key string) string)         { verif.SetGate(fn) }
+func VerifSetProc(name string, fn func(data interface{}))          { verif.SetProc(name, fn) }
+func VerifGoID() int64                                             { return verif.GoID() }
+func VerifID(ptr interface{}) string                               { return verif.ID(ptr) }
 
 // VerifContextID returns the identifier that hook events use for a context
 func VerifContextID(c BuildContext) string {
